@@ -461,8 +461,12 @@ func setMapField(field reflect.Value, fieldType reflect.Type, isPtr bool, mapArr
 		if err := setFieldFromArrow(k, fieldType.Key(), keys, int(start)+j, tagInfo{}); err != nil {
 			return fmt.Errorf("map key [%d]: %w", j, err)
 		}
-		if err := setFieldFromArrow(v, fieldType.Elem(), items, int(start)+j, tagInfo{}); err != nil {
-			return fmt.Errorf("map value [%d]: %w", j, err)
+		// A null item leaves v at its zero value (nil for pointer value
+		// types), as setListField does for null list elements.
+		if !items.IsNull(int(start) + j) {
+			if err := setFieldFromArrow(v, fieldType.Elem(), items, int(start)+j, tagInfo{}); err != nil {
+				return fmt.Errorf("map value [%d]: %w", j, err)
+			}
 		}
 		m.SetMapIndex(k, v)
 	}
